@@ -85,6 +85,68 @@ def squeeze(s):
     return "".join(s.split())
 
 
+MAT = (("dimensions_[0]", "D0"), ("dimensions_[1]", "D1"), ("offset_[0]", "S0"), ("offset_[1]", "S1"))
+MENV = {"D0": "d0", "D1": "d1", "S0": "s0", "S1": "s1", "data_": "b0", "offdiag": "k", "ibegin": "ib", "iend": "ie", "len": "len"}
+
+
+def marith(x, w):
+    for a, b in MAT:
+        x = x.replace(a, b)
+    p = E(x, MENV, w)
+    a = p.arith()
+    if p.peek() is not None:
+        die("%s: trailing '%s' in '%s'" % (w, p.peek(), x))
+    return a
+
+
+def fbody(t, header_re, w):
+    m = list(re.finditer(header_re, t))
+    if len(m) != 1:
+        die("%s: %d definitions" % (w, len(m)))
+    o = m[0].end() - 1
+    d, i = 0, o
+    while True:
+        if t[i] == "{":
+            d += 1
+        elif t[i] == "}":
+            d -= 1
+            if d == 0:
+                break
+        i += 1
+    return squeeze(t[o:i + 1])
+
+
+def diag_and_sub(t, out):
+    """diag_vector(offdiag) and submatrix_on_diagonal(ibegin, iend) of a square matrix"""
+    def emit(name, args, e):
+        out.append("Definition %s %s : Z := %s." % (name, " ".join("(%s : Z)" % x for x in args), e))
+    w = "diag_vector"
+    b = fbody(t, r"diag_vector\s*\(\s*Index\s+offdiag\s*=\s*0\s*\)\s*\{", w)
+    ret = r"Indexnew_dim=std::min\(([^,;]+),([^;]+?)\);returnArray<1,Type,IsActive>\(([^,;]+),storage_,ExpressionSize<1>\(new_dim\),ExpressionSize<1>\(([^;]+?)\)\);"
+    m = re.fullmatch(r"\{ADEPT_STATIC_ASSERT\(Rank==2,[A-Z_]+\);if\(empty\(\)\)\{returnArray<1,Type,IsActive>\(\);\}"
+                     r"elseif\(dimensions_\[0\]!=dimensions_\[1\]\)\{throwinvalid_operation\([^;]*\);\}"
+                     r"elseif\(offdiag>=0\)\{" + ret + r"\}else\{" + ret + r"\}\}", b)
+    if not m:
+        die("diag_vector: form not recognised: " + b[:500])
+    args = ["b0", "d0", "d1", "s0", "s1", "k"]
+    out.append("")
+    out.append("(* diag_vector(offdiag): the branch offdiag >= 0, then the other one *)")
+    for pre, g in (("dgp", m.groups()[0:4]), ("dgn", m.groups()[4:8])):
+        emit(pre + "_dim", args, "(Z.min %s %s)" % (marith(g[0], w), marith(g[1], w)))
+        emit(pre + "_base", args, marith(g[2], w))
+        emit(pre + "_stride", args, marith(g[3], w))
+    w = "submatrix_on_diagonal"
+    b = fbody(t, r"submatrix_on_diagonal\s*\(\s*Index\s+ibegin\s*,\s*Index\s+iend\s*\)\s*\{", w)
+    m = re.fullmatch(r"\{ADEPT_STATIC_ASSERT\(Rank==2,[A-Z_]+\);if\(dimensions_\[0\]!=dimensions_\[1\]\)\{throwinvalid_operation\([^;]*\);\}"
+                     r"elseif\(ibegin<0\|\|ibegin>iend\|\|iend>=dimensions_\[0\]\)\{throwindex_out_of_bounds\([^;]*\);\}"
+                     r"else\{Indexlen=([^;]+);ExpressionSize<2>dim\(len,len\);returnArray\(([^,;]+),storage_,dim,offset_\);\}\}", b)
+    if not m:
+        die("submatrix_on_diagonal: form not recognised: " + b[:500])
+    out.append("(* submatrix_on_diagonal(ibegin, iend): rejected unless 0 <= ibegin <= iend < dimensions_[0]; extents (len, len), strides kept *)")
+    emit("sd_len", ["ib", "ie"], marith(m.group(1), w))
+    emit("sd_base", ["b0", "s0", "s1", "ib", "ie"], marith(m.group(2), w))
+
+
 def main():
     t = S.strip(open(os.path.join(REPO, "include/adept/Array.h")).read())
     out = ["(* GENERATED by tools/gen_slice.py from include/adept/Array.h -- do not edit *)",
@@ -161,6 +223,7 @@ def main():
                % (n_over, ",".join(str(a) for a in sorted(arities))))
     out.append("   starting from ibegin = 0, and build the view from data_ + ibegin, new_dim, new_offset *)")
     out.append("Definition sl_start : Z := 0.")
+    diag_and_sub(t, out)
     out.append("Definition sl_overloads : Z := %d." % n_over)
     sys.stdout.write("\n".join(out) + "\n")
 
